@@ -11,12 +11,29 @@ CHECKS = {
     "C05": dict(
         runs=[
             dict(pkg="server", harness="VfC05_isNewMaster", bounds="all 2^256 (candidate, existing) id pairs; no loops"),
+            dict(pkg="server", harness="VfC05_runElection", reach=["end", "accepted", "zero-id", "not-single-primary", "unknown-session"],
+                 bounds="session table {A,B} each present/absent with arbitrary parameters and last id; arbitrary election state; announcing session any string; id any 128-bit value"),
         ],
         assumptions=[],
         level_text="Bounded symbolic execution of the real election code: every 128-bit id pair / every state of the bounded session table is covered by SMT queries, not sampled.",
         level_note="Trusted: go/ssa, gosym, z3; session table bounded (see evidence.bounds).",
     ),
 }
+
+CHECKS["C04"] = dict(
+    runs=[dict(pkg="server", harness="VfC04_doModify", load=["server"],
+               bounds="session table {A,B} arbitrary; election state arbitrary; calling session any string; batch of 1-2 next-hop ADDs each with nil or arbitrary 128-bit election id")],
+    assumptions=["RIB effect observed through next-hop ADD operations in the default network instance (the RIB's own behaviour is C01's)"],
+    level_text="Bounded symbolic execution of doModify/modifyEntry/checkElectionForModify from an arbitrary session table and election state: for every id triple (operation, session, server) the solver decides whether the RIB was reached.",
+    level_note="Trusted: go/ssa, gosym, z3, rib models (candidateRIB/MergeStructInto, validated by TestVfModelAgreement). Interleavings finer than one message are C11's.",
+)
+CHECKS["C08"] = dict(
+    runs=[dict(pkg="server", harness="VfC08_flushDecision", reach=["authorised", "no-instance", "missing-election-field", "unexpected-election-id", "zero-id", "lower-id", "unknown-instance"],
+               bounds="all (instance selector, election field, 128-bit id, server election state) combinations; RIB with one entry per instance")],
+    assumptions=[],
+    level_text="Bounded symbolic execution of Server.Flush/checkFlushRequest/RIB.Flush: the full decision table with 128-bit ids is decided by SMT queries.",
+    level_note="Trusted: go/ssa, gosym, z3, grpc status stub (code+details).",
+)
 
 NOT_APPLICABLE = {
     "C19": "whole compliance-suite runs over in-memory gRPC against wrapped servers in every order: a whole-program execution through gRPC, testing and reflection; no bounded symbolic encoding within reach (DESIGN.md §8)",
